@@ -4,6 +4,7 @@
 //  reuse: "use, reset / re-init, use again" must behave exactly like a fresh context.
 #include "sim.h"
 #include "igzip_lib.h"
+#include "defgen.h"
 
 uint32_t level_buf_size_for(int level, int cls, uint32_t extra);
 
@@ -198,6 +199,11 @@ struct Reuse {
                                 report_fault(rr, h, gc.fi, "isal_inflate (reuse)");
                                 return false;
                         }
+                        if (ret < 0) { // after an error return neither counters nor buffer contents are promised: only the verdict counts
+                                trace.push_back(ret);
+                                g_arena.release(so);
+                                break;
+                        }
                         out.insert(out.end(), so->data, so->data + (70000 - st->avail_out));
                         trace.push_back(ret);
                         trace.push_back(70000 - st->avail_out);
@@ -293,6 +299,19 @@ struct Reuse {
                 };
                 int ma = 0, mb = 0;
                 std::vector<uint8_t> sa = make_stream(a, ma), sb = make_stream(b, mb);
+                bool gram_b = false;
+                if (plan.find("gram_a")) { // a valid foreign stream (long and incomplete codes) leaves richer decode tables behind
+                        DefGenOut g = gen_deflate_stream(plan.at("gram_a"));
+                        sa = g.bytes;
+                        ma = ISAL_DEFLATE;
+                }
+                if (plan.find("gram_b")) { // the second stream may be malformed: whatever the verdict, it must not depend on the past
+                        DefGenOut g = gen_deflate_stream(plan.at("gram_b"));
+                        sb = g.bytes;
+                        mb = ISAL_DEFLATE;
+                        gram_b = true;
+                        COUNT("xport.grammar_stream_on_reused_state");
+                }
                 if (rr.violated() || sb.empty())
                         return;
                 Slot *s1 = g_arena.alloc(sizeof(struct inflate_state), PLACE_END, "inflate_state_reused", fill + 1, 8);
@@ -327,9 +346,10 @@ struct Reuse {
                 if (!inflate(st2, mb, sb, chunk, sb.size(), ob2, tb2))
                         return;
                 h.rec("reuse_end", { (int64_t) ob1.size(), (int64_t) ob2.size(), (int64_t) hash_bytes(ob1.data(), ob1.size()) });
-                if (tb1 != tb2 || ob1 != ob2 || st1->crc != st2->crc || st1->total_out != st2->total_out)
+                bool errored = !tb2.empty() && tb2.back() < 0 && tb2.size() % 3 == 1;
+                if (tb1 != tb2 || ob1 != ob2 || (!errored && (st1->crc != st2->crc || st1->total_out != st2->total_out)))
                         rr.fail("C15.reuse_differs", strf("decompressing the same %zu-byte stream (mode %d) on a %s state after a previous %s session: %zu bytes out / crc %08x; on a fresh state: %zu bytes out / crc %08x", sb.size(), mb, how == 2 ? "reset" : "re-initialised", a.abandon ? "abandoned" : "completed", ob1.size(), st1->crc, ob2.size(), st2->crc));
-                else if (ob2 != b.data && tb2.size() >= 3 && tb2[tb2.size() - 3] >= 0)
+                else if (!gram_b && ob2 != b.data && tb2.size() >= 3 && tb2[tb2.size() - 3] >= 0)
                         rr.fail("C07.roundtrip", "reuse session: fresh-state decode does not reproduce the data");
         }
 };
@@ -355,6 +375,16 @@ static Json gen_reuse(Rng &r0, const std::string &focus, int tier)
                         ch.push((uint32_t) r.logsize(60000));
                 j.set("chunks", ch);
                 p.set(nm, j);
+        }
+        if (r.chance(1, 3)) {
+                Json g = Json::obj();
+                g.set("s", r.u64() >> 16).set("n", (uint64_t) r.logsize(20000)).set("fault", 0).set("dict", 0);
+                p.set("gram_a", g);
+        }
+        if (r.chance(1, 3)) {
+                Json g = Json::obj();
+                g.set("s", r.u64() >> 16).set("n", (uint64_t) r.logsize(5000)).set("fault", r.chance(2, 3) ? (int) (1 + r.below(GF_NKINDS - 1)) : 0).set("dict", 0);
+                p.set("gram_b", g);
         }
         Json mem = Json::obj();
         mem.set("fill", r.u64() >> 24).set("skip", r.chance(1, 2) ? 0 : (int) r.below(4096));
